@@ -34,6 +34,7 @@ Definition enc_out (r : out) : list Z :=
   | OCommitted k v => [10; zn k; zn v]
   | OUpdated k v => [11; zn k; zn v]
   | OInvalid => [12]
+  | OFault k => [13; zn k]
   end.
 
 (* membership as every instance answers it (the model's Contains step), by id for every id of the
